@@ -193,6 +193,28 @@ class _BoolCheck(ast.NodeTransformer):
             node.operand = ast.Call(func=ast.Name(id="_b", ctx=ast.Load()), args=[node.operand], keywords=[])
         return node
 
+    def visit_Compare(self, node):
+        self.generic_visit(node)
+        if len(node.ops) <= 1:
+            return node
+        # a comparison chain short-circuits in CPython; the DSL evaluates every operand.  Evaluate all
+        # operands eagerly on the CPython side too, so that an operand on which an operator is undefined
+        # (and/or on a non-boolean, division by zero) excludes the row on both sides alike.
+        names = [type(o).__name__ for o in node.ops]
+        return ast.Call(
+            func=ast.Name(id="_chain", ctx=ast.Load()),
+            args=[ast.Constant(value=",".join(names)), node.left] + list(node.comparators),
+            keywords=[],
+        )
+
+
+_CMP = {"Lt": lambda a, b: a < b, "LtE": lambda a, b: a <= b, "Gt": lambda a, b: a > b, "GtE": lambda a, b: a >= b, "Eq": lambda a, b: a == b, "NotEq": lambda a, b: a != b}
+
+
+def _chain(names, *vals):
+    ops = names.split(",")
+    return all(_CMP[o](a, b) for o, a, b in zip(ops, vals, vals[1:]))
+
 
 class _Unchain(ast.NodeTransformer):
     """as-is model of the listed finding: a < b < c read as (a < b) < c"""
@@ -216,9 +238,9 @@ def _b(v):
 def compile_py(text, unchain=False):
     tree = ast.parse(text, mode="eval")
     chained = any(isinstance(n, ast.Compare) and len(n.ops) > 1 for n in ast.walk(tree))
-    tree = _BoolCheck().visit(tree)
     if unchain:
         tree = _Unchain().visit(tree)
+    tree = _BoolCheck().visit(tree)
     ast.fix_missing_locations(tree)
     return compile(tree, "<expr>", "eval"), chained
 
@@ -266,7 +288,7 @@ def work(texts, open_ids):
         known = False
         compared = 0
         for x, y in grid:
-            env = {"x": N(x), "y": N(y), "_b": _b, "_and": lambda *a: all(a), "_or": lambda *a: any(a)}
+            env = {"x": N(x), "y": N(y), "_b": _b, "_and": lambda *a: all(a), "_or": lambda *a: any(a), "_chain": _chain}
             try:
                 want = eval(code, {"__builtins__": {}}, env)
             except NotBoolean:
